@@ -111,17 +111,30 @@ Definition spec_event (o : bool) (e : event) : list tev * bool :=
   | EPipe i d => ([TPipe i d], o)
   | EFile i => ([TFile i], o)
   end.
-(* a round: its events in arrival order, then the redraw before the loop waits again *)
-Definition spec_round (o : bool) (r : list event) : list tev * bool :=
-  (fst (thread spec_event o r) ++ spec_draw (snd (thread spec_event o r)), snd (thread spec_event o r)).
 Definition spec_alarm (o : bool) (a : alarm) : list tev :=
   match a with AUser i => [TAlarm i] | AEnteringIdle => spec_draw o end.
+(* the idle phase: every registered MainLoop.entering_idle redraws ([k] = 1 unless an earlier run() on
+   the same loop ended with an exception: MainLoop.stop() is not called then and its callback stays) *)
+Fixpoint spec_idle (k : nat) (o : bool) : list tev :=
+  match k with O => [] | S k' => spec_draw o ++ spec_idle k' o end.
+(* ready descriptors are served before due alarms (C13 contract of the select loop) *)
+Definition spec_fd_event (o : bool) (e : event) : list tev * bool :=
+  match e with EAlarm _ => ([], o) | _ => spec_event o e end.
+(* a round: the descriptor events in arrival order, the alarms in the order they were set, then the redraw
+   before the loop waits again *)
+Definition spec_round (k : nat) (o : bool) (r : list event) : list tev * bool :=
+  (fst (thread spec_fd_event o r) ++ flat_map (spec_alarm (snd (thread spec_fd_event o r))) (alarm_ids r) ++
+   spec_idle k (snd (thread spec_fd_event o r)),
+   snd (thread spec_fd_event o r)).
+
+(* event_loop.run(): what is left in the alarm heap fires first, the idle phase, then round after round *)
+Definition spec_loop (k : nat) (o : bool) (al : list alarm) (rounds : list (list event)) : list tev :=
+  flat_map (spec_alarm o) al ++ spec_idle k o ++ fst (thread (spec_round k) o rounds).
 
 (* run() on a screen with hook_event_loop: the alarms set before run(), the initial redraw
    (start() schedules it as an alarm), the first idle redraw, then round after round *)
 Definition spec_hook_session (rounds : list (list event)) : list tev :=
-  flat_map (spec_alarm false) (map AUser (c_pre_alarms c) ++ [AEnteringIdle]) ++ spec_draw false ++
-  fst (thread spec_round false rounds).
+  spec_loop 1 false (map AUser (c_pre_alarms c) ++ [AEnteringIdle]) rounds.
 
 (* run() on a screen without hook_event_loop (_run_screen_event_loop): redraw, then per get_input
    result that is not an idle time-out: filter, keys, every due alarm, redraw *)
